@@ -265,6 +265,10 @@ pub fn stmt_alphabet() -> Vec<Stmt> {
         }),
         st(C::While(b(lt(rv("a"), int(3))), b(sv("a", add(rv("a"), int(1)))))),
         st(C::While(b(int(0)), b(sv("a", int(79))))),
+        // a loop body is a scope: a local it introduces does not outlive the iteration, whether or
+        // not the body ever runs
+        decl(comp(vec![C::While(b(int(0)), b(sv("wl", int(1)))), sv("n", int(6))]), &["n"]),
+        decl(comp(vec![C::While(b(lt(rv("a"), int(3))), b(comp(vec![sv("wl", add(rv("a"), int(1))), sv("a", rv("wl"))]))), sv("n", rv("a"))]), &["n"]),
         // conditionals
         st(C::IfTrue(b(rv("a")), b(sv("b", int(9))))),
         st(C::IfTrue(b(int(0)), b(sv("b", int(9))))),
@@ -352,7 +356,7 @@ pub fn contexts() -> Vec<Ctx> {
 impl Ctx {
     /// may a statement that declares a new local be placed directly in this context (W2)?
     pub fn allows_decl(self) -> bool {
-        !matches!(self, Ctx::WhileBody | Ctx::IfTrue | Ctx::IfElseThen | Ctx::IfElseElse)
+        !matches!(self, Ctx::IfTrue | Ctx::IfElseThen | Ctx::IfElseElse)
     }
     pub fn is_function(self) -> bool {
         matches!(self, Ctx::Callee(..) | Ctx::Callee2 | Ctx::ClosureBody)
